@@ -25,10 +25,13 @@ package git
 //@   props C11
 //@   modifies fresh
 
+// Every line of `git config -l` output reaches the reader - also "key=" lines
+// with an empty value, which is how a user blanks a setting of .lfsconfig.
 //@ func ParseConfigLines
 //@   props C11
 //@   modifies fresh
 //@   ensures result != nil && result.OnlySafeKeys == onlySafeKeys
+//@   ensures result.Lines == str_split(lines, "\n")
 
 //@ func (*Configuration).FileSource
 //@   props C11
